@@ -82,3 +82,39 @@ def gen_Density() -> str:
                        "density.py `element_densities`"))
     out += ["end PtGen", ""]
     return "\n".join(out)
+
+
+def _opt_unc(p):
+    return "none" if p is None else "(some %s)" % R.unc_lean(p)
+
+
+@register("NsfTables")
+def gen_NsfTables() -> str:
+    src = R.nsf_source()
+    rows = R.read_nsf(src["nsftable"])
+    irows = R.read_nsf_imag(src["nsftableI"])
+    ed = R.energy_tables_source()
+    out = ["import PtVerif.Model.LoadersNsf", "namespace PtGen", "open PtLoad", "",
+           "/-! nsf.py: the translator's reading of `nsftable` (%d rows), `nsftableI` (%d);" % (len(rows), len(irows)),
+           "    nsf_tables.py `ENERGY_DEPENDENT_TABLES` (%d tables); `ABSORPTION_WAVELENGTH`. -/" % len(ed), ""]
+    out.append(chunked("nsfRows", "NsfRow", [
+        "⟨%d, %d, %d, %s, %s, %s, %s, %s, %s, %s, %s, %s, %s⟩" % (
+            r["z"], R.sym_code(r["sym"]), r["a"], _opt_unc(r["p"]), translate.lean_str(r["spin"]),
+            R.unc_lean(r["b_c"]), R.unc_lean(r["bp"]), R.unc_lean(r["bm"]), "true" if r["isE"] else "false",
+            R.unc_lean(r["coh"]), R.unc_lean(r["inc"]), R.unc_lean(r["tot"]), R.unc_lean(r["abs"]))
+        for r in rows], "nsf.py `nsftable`"))
+    out.append(chunked("nsfIRows", "NsfIRow", [
+        "⟨%d, %d, %s, %s, %s⟩" % (r["z"], r["a"], R.unc_lean(r["b_c_i"]), R.unc_lean(r["bp_i"]), R.unc_lean(r["bm_i"]))
+        for r in irows], "nsf.py `nsftableI`"))
+    tabs = []
+    for i, (sym, a, trows) in enumerate(ed):
+        out.append("def edRows_%d : List (Dec × Dec × Dec) := [\n%s]\n" % (
+            i, ",\n".join("  (%s, %s, %s)" % (e.lean(), re_.lean(), im.lean()) for e, re_, im, _ in trows)))
+        tabs.append("⟨%d, %d, edRows_%d⟩" % (R.sym_code(sym), a, i))
+    out.append("/-- nsf_tables.py `ENERGY_DEPENDENT_TABLES`: symbol code, isotope (0 = None), (E/eV, Re, Im) rows -/")
+    out.append("def edTables : List EDTable := [\n%s]\n" % ",\n".join("  " + t for t in tabs))
+    out += ["def nsfTables : NsfTables := ⟨nsfRows, nsfIRows, edTables⟩", "",
+            "/-- nsf.py `ABSORPTION_WAVELENGTH` -/",
+            "def absorptionWavelength : Dec := %s" % src["ABSORPTION_WAVELENGTH"].lean(),
+            "", "end PtGen", ""]
+    return "\n".join(out)
